@@ -213,31 +213,8 @@ pub fn run(tier: Tier) -> i32 {
     let step = (states.len() / nrep).max(1);
     let reps: Vec<usize> = (0..states.len()).step_by(step).collect();
 
-    // (a) all byte strings of length 0..=3
-    let a_states: Vec<usize> = if tier.thorough() { (0..states.len()).step_by((states.len() / 60).max(1)).collect() } else { reps.clone() };
-    let jobs: Vec<(usize, u32)> = a_states.iter().flat_map(|&si| (0..=255u32).map(move |b0| (si, b0))).collect();
-    jobs.par_iter().for_each(|&(si, b0)| {
-        if rep.over_time() {
-            rep.cap("(a): wall cap");
-            return;
-        }
-        let mut acc = Acc::default();
-        let s = &states[si];
-        let b0 = b0 as u8;
-        if b0 == 0 {
-            ck.one(&mut acc, s, si, &[], "a");
-        }
-        ck.one(&mut acc, s, si, &[b0], "a");
-        for b1 in 0..=255u8 {
-            ck.one(&mut acc, s, si, &[b0, b1], "a");
-            for b2 in 0..=255u8 {
-                ck.one(&mut acc, s, si, &[b0, b1, b2], "a");
-            }
-        }
-        rep.merge(acc);
-    });
-    rep.part(json!({"part":"(a) all byte strings of length 0..=3","strings":16_843_009u64,"in_states":a_states.len()}));
-
+    // the directed and corpus-based families run first: they are the cheapest and the only ones that reach deep states;
+    // the big sweep (a) comes last so that a wall cap under load cuts the broad part, not the deep ones
     // (b) headers x lengths x fillers
     let gls: Vec<usize> = (0..=40).chain(4080..=4095).collect();
     let mut headers: Vec<u16> = vec![];
@@ -341,6 +318,31 @@ pub fn run(tier: Tier) -> i32 {
     });
     rep.part(json!({"part":"(d) every re-announced GSE length of every corpus packet","corpus_packets":corp.len(),"in_states":d_states.len()}));
     directed_large_storage(&rep, &ck);
+    // (a) all byte strings of length 0..=3
+    let a_states: Vec<usize> = if tier.thorough() { (0..states.len()).step_by((states.len() / 60).max(1)).collect() } else { reps.clone() };
+    let jobs: Vec<(usize, u32)> = a_states.iter().flat_map(|&si| (0..=255u32).map(move |b0| (si, b0))).collect();
+    jobs.par_iter().for_each(|&(si, b0)| {
+        if rep.over_time() {
+            rep.cap("(a): wall cap");
+            return;
+        }
+        let mut acc = Acc::default();
+        let s = &states[si];
+        let b0 = b0 as u8;
+        if b0 == 0 {
+            ck.one(&mut acc, s, si, &[], "a");
+        }
+        ck.one(&mut acc, s, si, &[b0], "a");
+        for b1 in 0..=255u8 {
+            ck.one(&mut acc, s, si, &[b0, b1], "a");
+            for b2 in 0..=255u8 {
+                ck.one(&mut acc, s, si, &[b0, b1, b2], "a");
+            }
+        }
+        rep.merge(acc);
+    });
+    rep.part(json!({"part":"(a) all byte strings of length 0..=3","strings":16_843_009u64,"in_states":a_states.len()}));
+
     for (k, &si) in reps.iter().enumerate().take(3) {
         rep.sample(k as u64, || json!({"receiver_state": format!("{:?}", states[si]), "inputs": "all byte strings of length 0..=3"}));
     }
